@@ -123,6 +123,32 @@ def gen_cursor_sweep(k, pos, f):
     return b.finish()
 
 
+def gen_gone(k, f):
+    """the process behind target f goes away between two health checks: requests sent to it are refused (a dial error,
+    502), then its probes are refused too; requests keep arriving. Once the failing probe result is applied the target
+    must be out of the rotation, and it returns when a probe succeeds again."""
+    b = c01.Builder(random.Random(k * 10 + f))
+    b.meta["shape"] = {"mix": "gone", "k": k, "fails": f}
+    host, name = b"a.example.com", b"web"
+    scripts = [["ok"] for _ in range(k)]
+    scripts[f] = ["ok", "ok", "refused", "refused", "ok"]
+    b.deploy(name, host, scripts, 5 * SEC, 500 * MS, async_=False)
+    gone = "dialfail:" + b.meta["deploys"][-1]["targets"][f]
+    b.sleep(1 * SEC + 500 * MS)
+    for _ in range(2 * k):
+        b.request(host, "burst", beh=gone)
+    b.sleep(600 * MS)                                          # the probe at 2 s is refused
+    for _ in range(2 * k + 1):
+        b.request(host, "burst", beh=gone)
+    b.sleep(1 * SEC)                                           # and the one at 3 s
+    for _ in range(2 * k + 1):
+        b.request(host, "burst", beh=gone)
+    b.sleep(1 * SEC)                                           # back at 4 s
+    for _ in range(2 * k + 1):
+        b.request(host, "burst")
+    return b.finish()
+
+
 def gen_restored(k, f, pos, rollout=False):
     """a proxy RESTART: k targets deployed, `pos` requests, restart (balancers restored from the state file: every target presumed
     healthy until its first probe), then target f refuses two probes and recovers; bursts before / during / after: the restored
@@ -257,6 +283,7 @@ def run(tier, seed):
                                                                  "delta": [0, 0, -1, 1][i % 4], "again": False})
                for i in range(8 if tier == "quick" else 64)]
         sm += [gen_cursor_sweep(k, pos, f) for k in ((2, 3) if tier == "quick" else (2, 3, 4, 5)) for pos in range(k + 1) for f in range(k)]
+        sm += [gen_gone(k, f) for (k, f) in ([(2, 0), (3, 1)] if tier == "quick" else [(k, f) for k in (2, 3, 4) for f in range(k)])]
         # restarts: restored balancers (model/M5lb.v rule KRestored; theorems props/C01restore.v)
         if m5.RESTORE_EVENTS:
             sm += [gen_restored(k, f, pos, ro) for (k, f, pos, ro) in
@@ -282,7 +309,7 @@ def run(tier, seed):
             if harness_ok and ok:
                 terms = ["(%s, (%d)%%N, %s)" % (bounds_term(o, pts[j]), o["t_end"], m5.trace_term(o["events"])) for j, o in enumerate(outs)]
                 expr = ("fun x => match x with (bd, te, tr) => (reject_at tr, c09_fail_at tr, c09_rebuild_fail_at tr, c09_restore_at tr, "
-                        "c01_fail_at tr, c09_cadence bd (6000000000)%N te tr, c09_counts tr, c09_unprobed_claim_at tr, c09_rot_fail_at tr) end")
+                        "c01_fail_at tr, c09_cadence bd (6000000000)%N te tr, c09_counts tr, c09_unprobed_claim_at tr, c09_rot_fail_at tr, c09_excl_fail_at tr) end")
                 rows = m4x.coq_map(work, m5lb.IMPORTS + "From KP Require Import corr.C09rot.\n", "", terms, expr, tag, shard=5)
                 src = next((o for o in outs if sum(1 for e in o["events"] if e["kind"] == "claim") >= 2 and
                             any(e["kind"] == "lb-new" and len(e["args"][1]) >= 2 for e in o["events"])), None) if self_test else None
@@ -295,7 +322,7 @@ def run(tier, seed):
             rejected, mon_fail, e2e, known, drains = [], [], [], [], []
             cnts = [0, 0, 0, 0]
             for j, r in enumerate(rows):
-                rej, mon, reb, rest, m1, cad, cnt, unp, rot = r
+                rej, mon, reb, rest, m1, cad, cnt, unp, rot, excl = r
                 for q in range(4):
                     cnts[q] += cnt[q]
                 if mon is not None:
@@ -307,6 +334,9 @@ def run(tier, seed):
                     mon_fail.append((j, "c09_rebuild_ok", reb[1]))
                 elif m1 is not None:
                     mon_fail.append((j, "c01_ok", m1[1]))
+                elif excl is not None:
+                    mon_fail.append((j, "c09_excl_ok (a probe goroutine applied a failing result while its target was in the rotation and did "
+                                        "not rebuild the rotation without it before its next result)", excl[1]))
                 elif rot is not None:
                     mon_fail.append((j, "c09_rot_ok (a rebuilt rotation is not exactly the balancer's healthy targets, each once, in the "
                                         "balancer's order: a healthy target left out, or a target listed twice)", rot[1]))
